@@ -68,7 +68,8 @@ def _pending_start(ctx, master, nz):
     loops = [n for n in graph.nodes if n.kind == 'for' and
              'cell.apps' in N.txt(n.ast.iter) and
              isinstance(n.ast.target, ast.Tuple)]
-    ctx.require(loops, 'pass over the instances in _check_pending_start')
+    ctx.require(loops, 'pass over the instances in _check_pending_start',
+        rule='C08.6')
     for loop in loops:
         name = N.txt(loop.ast.target.elts[0])
 
@@ -123,12 +124,13 @@ def _inactive(ctx, rule='C08.1'):
             statevar = N.txt(sub.targets[0].elts[0])
             sincevar = N.txt(sub.targets[0].elts[1])
             srv = K.recv_text(sub.value)
-    ctx.require(statevar, '(state, since) = server.get_state()')
+    ctx.require(statevar, '(state, since) = server.get_state()', rule=rule)
     # the collected list
     removes = K.nodes_calling(graph, lambda c: K.is_meth(c, 'remove') and
                               c.args and N.txt(c.args[0]).endswith('.name')
                               and K.recv_text(c) == srv)
-    ctx.require(len(removes) == 1, 'removal in the inactive-server pass')
+    ctx.require(len(removes) == 1, 'removal in the inactive-server pass',
+        rule=rule)
     rnode = removes[0][0]
     rloop = K.enclosing_for(graph, rnode)
     lst = N.txt(rloop.ast.iter) if rloop is not None else None
@@ -197,12 +199,12 @@ def _inactive(ctx, rule='C08.1'):
                    'collected only when expires_at <= now; facts: %s' %
                    sorted(N.show(f) for f in have),
                    construct='%s [expired]' % node.text(50))
-    ctx.require(writers >= 2, 'writers of the collected list')
+    ctx.require(writers >= 2, 'writers of the collected list', rule=rule)
     # expires_at definition
     defs = [n for n in graph.nodes if n.kind == 'stmt' and
             isinstance(n.ast, ast.Assign) and
             N.txt(n.ast.targets[0]) in evars]
-    ctx.require(defs, 'definition of the retention deadline')
+    ctx.require(defs, 'definition of the retention deadline', rule=rule)
     for node in defs:
         val = K.rexpr(func, node.ast.value)
         # the definition case by case: a conditional expression is two
@@ -250,13 +252,13 @@ def _placement_guards(ctx, cell, nz):
     for node in loop.body():
         if node.kind == 'for' and node is not head:
             scan = node
-    ctx.require(scan is not None, 'victim scan')
+    ctx.require(scan is not None, 'victim scan', rule='C08.2')
     victim = sorted(N.for_targets(scan))[0]
     sbody = K.loop_body_nodes(scan)
     removes = [n for n in sbody if any(
         K.is_meth(c, 'remove') and c.args and
         N.txt(c.args[0]) == '%s.name' % victim for c in C.node_calls(n))]
-    ctx.require(removes, 'victim removal')
+    ctx.require(removes, 'victim removal', rule='C08.2')
     for rnode in removes:
         rcv = [K.recv_text(c) for c in C.node_calls(rnode)
                if K.is_meth(c, 'remove')][0]
@@ -288,14 +290,14 @@ def _placement_guards(ctx, cell, nz):
                     nz, e, '%s.blacklisted' % var, False), start=head)
                 ctx.ob('C08.3', loop.func, node, ok,
                        'a blacklisted instance is never placed')
-    ctx.require(count >= 3, 'placement calls in the loop')
+    ctx.require(count >= 3, 'placement calls in the loop', rule='C08.3')
     bl = cell.methods.get('_handle_blacklisted_apps')
     ctx.require(bl is not None, 'Cell._handle_blacklisted_apps')
     bgraph = ctx.cfg(bl)
     bfacts = N.must_facts(bgraph, nz)
     brem = K.nodes_calling(bgraph, lambda c: K.is_meth(c, 'remove') and
                            c.args and N.txt(c.args[0]).endswith('.name'))
-    ctx.require(brem, 'removal in the blacklist pass')
+    ctx.require(brem, 'removal in the blacklist pass', rule='C08.3')
     for node, call in brem:
         v = N.txt(call.args[0])[:-5]
         have = set(N.show(f) for f in facts_about(
@@ -327,7 +329,7 @@ def _ordering(ctx, cell):
     graph = ctx.cfg(sched)
     targets = K.nodes_calling(graph, lambda c: K.is_meth(c,
                                                          'schedule_alloc'))
-    ctx.require(targets, 'schedule_alloc call')
+    ctx.require(targets, 'schedule_alloc call', rule='C08.4')
     for name in ('_handle_inactive_servers', '_handle_blacklisted_apps',
                  '_fix_invalid_identities'):
         pre = [n for n, _c in K.nodes_calling(
@@ -394,7 +396,8 @@ def _presence(ctx):
     loops = [n for n in graph.nodes if n.kind == 'for']
     loops = [n for n in loops if not any(
         n in K.loop_body_nodes(o) for o in loops if o is not n)]
-    ctx.require(len(loops) >= 2, 'two handling loops in adjust_presence')
+    ctx.require(len(loops) >= 2, 'two handling loops in adjust_presence',
+        rule='C08.5')
     went = sx.expect(lambda e: e['known'] and not e['down'] and
                      not e['present'])
     came = sx.expect(lambda e: e['down'] and e['present'])
@@ -429,7 +432,7 @@ def _presence(ctx):
                    'a server that came up is reloaded, then its state '
                    'adjusted: %s' % order,
                    construct="'came' handling reload then adjust")
-    ctx.require(all(seen.values()), 'both presence handlers')
+    ctx.require(all(seen.values()), 'both presence handlers', rule='C08.5')
     # adjust_server_state
     adj = loader.methods.get('adjust_server_state')
     ctx.require(adj is not None, 'Loader.adjust_server_state')
@@ -440,7 +443,7 @@ def _presence(ctx):
         graph, lambda c: K.is_meth(c, 'set_state') and len(c.args) == 2)]
     stores = [n for n in graph.nodes if any(
         N.txt(t).endswith('.state') for t, _v, _k in K.assigns_attr(n))]
-    ctx.require(stores, 'presence-based state stores')
+    ctx.require(stores, 'presence-based state stores', rule='C08.5')
     pdefs = {}
     for sub in K.walk_no_nested(adj.node):
         if isinstance(sub, ast.Assign) and len(sub.targets) == 1 and \
@@ -559,7 +562,7 @@ def _bookkeeping(ctx):
     marks = [n for n in graph.nodes if any(
         N.txt(t).endswith('.unschedule') for t, _v, _k in
         K.assigns_attr(n))]
-    ctx.require(marks, 'unschedule mark in _freeze_server')
+    ctx.require(marks, 'unschedule mark in _freeze_server', rule='C08.6')
     for node in marks:
         v = [N.txt(t.value) for t, _v, _k in K.assigns_attr(node)][0]
         defs = [s for s in K.walk_no_nested(fr.node)
@@ -616,7 +619,7 @@ def _bookkeeping(ctx):
                        else None,
                        construct='mark consumed with ' + site[0].text(30))
     ctx.require(unplacing >= 1, 'un-placement (<v>.server = None) in the '
-                                'scheduler')
+                                'scheduler', rule='C08.6')
     sets = K.nodes_calling(graph, lambda c: K.is_meth(c, 'set_state'))
     ok = bool(sets) and all('State.frozen' in N.txt(c.args[0])
                             for _n, c in sets)
